@@ -16,11 +16,13 @@ def run(fw):
     fw.assumptions += ['inductive-step style: one call from a concrete micro-world (2 children per container); names over two letters, index classes {0,1,2,SIZE_MAX,2^40}, prepared entity choices are symbolic',
                        'no-destroy mode of the shared_ptr model: object lifetime (use after release of an owner) is outside this check',
                        'outside: histories longer than one call, containers with more than 2 children, services taking entities (annotator, importer, analyser, analyser model)']
+    fw.known_finding_lines()
+    kle = fw.kf_listed('C09-lookalike-in-earlier-subtree')
     wit = {'s_remove_component_pointer', 's_replace_component', 's_add_component_hierarchy', 's_units_index', 's_equivalence_arguments'}
 
     def one(j):
         root, extra = j
-        defs = ['VSTD_STR_CAP=23', 'VSTD_VEC_CAP=4'] + extra
+        defs = ['VSTD_STR_CAP=23', 'VSTD_VEC_CAP=4'] + extra + (['KNOWN_LOOKALIKE_EARLIER_SUBTREE'] if (kle and root == 's_remove_component_encapsulated') else [])
         name = 'c09_%s_%d' % (root, len(extra))
         m = fw.build_model(name, H, [root], defines=defs)
         us = fw.unwindset(m, root, vfw.std_rules())
